@@ -12,12 +12,30 @@ theorem frozenObj_ge {m : Mem} {a : Addr} (h : m.length ≤ a) : frozenObj m a =
   | false => rfl
   | true => exact absurd (frozenObj_lt hf) (Nat.not_lt.mpr h)
 
+/-- `m` extends the base heap `m0`, and every object of `m0` outside the write set
+`W` is the same object in `m` (same body, same owner) -/
+def Ext (W : Addr → Prop) (m0 m : Mem) : Prop :=
+  m0.length ≤ m.length ∧ ∀ a, a < m0.length → ¬ W a → m[a]? = m0[a]?
+
+/-- an address a step may write: in the write set, or allocated after `m0` -/
+def Wr (W : Addr → Prop) (m0 : Mem) (a : Addr) : Prop := W a ∨ m0.length ≤ a
+
+theorem Ext.refl (W : Addr → Prop) (m : Mem) : Ext W m m := ⟨Nat.le_refl _, fun _ _ _ => rfl⟩
+
+theorem Ext.mono {W W' : Addr → Prop} {m0 m : Mem} (h : Ext W m0 m) (hw : ∀ a, W a → W' a) :
+    Ext W' m0 m := ⟨h.1, fun a ha hn => h.2 a ha (fun hw' => hn (hw a hw'))⟩
+
+/-- a step whose write set holds no library-owned object preserves them all -/
+theorem Ext.preserves {W : Addr → Prop} {m0 m : Mem} (h : Ext W m0 m)
+    (hw : ∀ a, W a → frozenObj m0 a = false) : Preserves m0 m :=
+  ⟨h.1, fun a ha => h.2 a (frozenObj_lt ha) (fun hwa => by rw [hw a hwa] at ha; exact Bool.noConfusion ha)⟩
+
 /-- relative frame rule for allocation -/
-theorem pres_alloc {m0 m : Mem} (h : Preserves m0 m) (o : Owner) (b : Body) :
-    Preserves m0 (alloc m o b).1 :=
-  ⟨Nat.le_trans h.1 (by simp [alloc]), fun a ha => by
-    have := Nat.lt_of_lt_of_le (frozenObj_lt ha) h.1
-    simp [alloc, List.getElem?_append_left this, h.2 a ha]⟩
+theorem pres_alloc {W : Addr → Prop} {m0 m : Mem} (h : Ext W m0 m) (o : Owner) (b : Body) :
+    Ext W m0 (alloc m o b).1 :=
+  ⟨Nat.le_trans h.1 (by simp [alloc]), fun a ha hn => by
+    have := Nat.lt_of_lt_of_le ha h.1
+    simp [alloc, List.getElem?_append_left this, h.2 a ha hn]⟩
 
 @[simp] theorem alloc_fst_length (m : Mem) (o : Owner) (b : Body) :
     (alloc m o b).1.length = m.length + 1 := by simp [alloc]
@@ -41,17 +59,28 @@ theorem freeze_get_ne {m : Mem} {a x : Addr} (h : a ≠ x) : (freeze m a)[x]? = 
   · rfl
 
 /-- relative frame rule for an in-place write -/
-theorem pres_setBody {m0 m : Mem} (h : Preserves m0 m) {a : Addr} (b : Body)
-    (ha : frozenObj m0 a = false) : Preserves m0 (setBody m a b) :=
-  ⟨by simpa using h.1, fun x hx => by
-    have hne : a ≠ x := by intro e; subst e; rw [hx] at ha; exact Bool.noConfusion ha
-    rw [setBody_get_ne b hne, h.2 x hx]⟩
+theorem pres_setBody {W : Addr → Prop} {m0 m : Mem} (h : Ext W m0 m) {a : Addr} (b : Body)
+    (ha : Wr W m0 a) : Ext W m0 (setBody m a b) :=
+  ⟨by simpa using h.1, fun x hx hn => by
+    have hne : a ≠ x := by
+      intro e; subst e
+      rcases ha with ha | ha
+      · exact hn ha
+      · exact Nat.not_lt.mpr ha hx
+    rw [setBody_get_ne b hne, h.2 x hx hn]⟩
 
-theorem pres_freeze {m0 m : Mem} (h : Preserves m0 m) {a : Addr}
-    (ha : frozenObj m0 a = false) : Preserves m0 (freeze m a) :=
-  ⟨by simpa using h.1, fun x hx => by
-    have hne : a ≠ x := by intro e; subst e; rw [hx] at ha; exact Bool.noConfusion ha
-    rw [freeze_get_ne hne, h.2 x hx]⟩
+theorem pres_freeze {W : Addr → Prop} {m0 m : Mem} (h : Ext W m0 m) {a : Addr}
+    (ha : Wr W m0 a) : Ext W m0 (freeze m a) :=
+  ⟨by simpa using h.1, fun x hx hn => by
+    have hne : a ≠ x := by
+      intro e; subst e
+      rcases ha with ha | ha
+      · exact hn ha
+      · exact Nat.not_lt.mpr ha hx
+    rw [freeze_get_ne hne, h.2 x hx hn]⟩
+
+theorem preserves_alloc' (W : Addr → Prop) (m : Mem) (o : Owner) (b : Body) : Ext W m (alloc m o b).1 :=
+  pres_alloc (Ext.refl W m) o b
 
 theorem not_frozen_of_owner {m : Mem} {a : Addr} {o : Owner} (h : ownerOf m a = some o)
     (h1 : o ≠ .lib) (h2 : ∀ b, o ≠ .bucket b) : frozenObj m a = false := by
@@ -62,27 +91,24 @@ theorem not_frozen_of_owner {m : Mem} {a : Addr} {o : Owner} (h : ownerOf m a = 
   | bucket b => exact absurd rfl (h2 b)
   | _ => rfl
 
-theorem pres_freezeCaller (m : Mem) (a : Addr) : Preserves m (freezeCaller m a) := by
+/-- a documented transfer: writes (the owner tag of) a caller-owned object only -/
+theorem pres_freezeCaller {W : Addr → Prop} (m : Mem) (a : Addr)
+    (hw : ownerOf m a = some .caller → W a) : Ext W m (freezeCaller m a) := by
   unfold freezeCaller
   split
   · rename_i h
-    exact preserves_freeze (not_frozen_of_owner (by simpa using h) (by simp) (by simp))
-  · exact Preserves.refl m
+    exact pres_freeze (Ext.refl W m) (.inl (hw (by simpa using h)))
+  · exact Ext.refl W m
 
-/-- the slice is over an array that is not library-owned in `m0` -/
-def SliceW (m0 : Mem) (w : Word) : Prop :=
-  ∀ arr off len cap, w = .slice arr off len cap → frozenObj m0 arr = false
-
-theorem sliceW_of_bool {m : Mem} {w : Word} (h : sliceWritable m w = true) : SliceW m w := by
-  intro arr off len cap e
-  subst e
-  simpa [sliceWritable] using h
+/-- the slice is over an array the step may write -/
+def SliceW (W : Addr → Prop) (m0 : Mem) (w : Word) : Prop :=
+  ∀ arr off len cap, w = .slice arr off len cap → Wr W m0 arr
 
 /-- `append`: writes the backing array in place (only when `len < cap`), or allocates -/
-theorem pres_goAppend' {m0 m m' : Mem} (h : Preserves m0 m) {own : Owner} {s x s' : Word}
-    (hs : ∀ arr off len cap, s = .slice arr off len cap → len < cap → frozenObj m0 arr = false)
+theorem pres_goAppend' {W : Addr → Prop} {m0 m m' : Mem} (h : Ext W m0 m) {own : Owner} {s x s' : Word}
+    (hs : ∀ arr off len cap, s = .slice arr off len cap → len < cap → Wr W m0 arr)
     (he : goAppend m own s x = some (m', s')) :
-    Preserves m0 m' ∧ SliceW m0 s' := by
+    Ext W m0 m' ∧ SliceW W m0 s' := by
   cases s with
   | null =>
     simp only [goAppend] at he
@@ -90,7 +116,7 @@ theorem pres_goAppend' {m0 m m' : Mem} (h : Preserves m0 m) {own : Owner} {s x s
     refine ⟨pres_alloc h _ _, ?_⟩
     intro arr off len cap e
     cases e
-    exact frozenObj_ge h.1
+    exact .inr h.1
   | slice arr off len cap =>
     simp only [goAppend] at he
     cases hc : cellsOf m arr with
@@ -108,17 +134,17 @@ theorem pres_goAppend' {m0 m m' : Mem} (h : Preserves m0 m) {own : Owner} {s x s
         refine ⟨pres_alloc h _ _, ?_⟩
         intro arr' off' len' cap' e
         cases e
-        exact frozenObj_ge h.1
+        exact .inr h.1
   | _ => simp [goAppend] at he
 
-theorem pres_goAppend {m0 m m' : Mem} (h : Preserves m0 m) {own : Owner} {s x s' : Word}
-    (hs : SliceW m0 s) (he : goAppend m own s x = some (m', s')) :
-    Preserves m0 m' ∧ SliceW m0 s' :=
+theorem pres_goAppend {W : Addr → Prop} {m0 m m' : Mem} (h : Ext W m0 m) {own : Owner} {s x s' : Word}
+    (hs : SliceW W m0 s) (he : goAppend m own s x = some (m', s')) :
+    Ext W m0 m' ∧ SliceW W m0 s' :=
   pres_goAppend' h (fun arr off len cap e _ => hs arr off len cap e) he
 
-/-- the storage of the set at `a` (as it is in `m`) is not library-owned in `m0` -/
-def SetW (m0 m : Mem) (a : Addr) : Prop :=
-  frozenObj m0 a = false ∧ ∀ kvs, kvsOf m a = some kvs → ∀ kv ∈ kvs, SliceW m0 kv.2
+/-- the storage of the set at `a` (as it is in `m`) may be written -/
+def SetW (W : Addr → Prop) (m0 m : Mem) (a : Addr) : Prop :=
+  Wr W m0 a ∧ ∀ kvs, kvsOf m a = some kvs → ∀ kv ∈ kvs, SliceW W m0 kv.2
 
 theorem kvsOf_setBody_self {m : Mem} {a : Addr} {kvs kvs' : List (Key × Word)}
     (h : kvsOf m a = some kvs) : kvsOf (setBody m a (.gomap kvs')) a = some kvs' := by
@@ -240,9 +266,9 @@ theorem kvsOf_goAppend {m m' : Mem} {own : Owner} {s x s' : Word} {a : Addr}
   | _ => simp [goAppend] at he
 
 /-- `Set.Add` -/
-theorem pres_setAdd {m0 m m' : Mem} (h : Preserves m0 m) {eq : Equiv} {a : Addr} {x : Word} {hh : Int}
-    (hw : SetW m0 m a) (he : setAdd eq m a x hh = some m') :
-    Preserves m0 m' ∧ SetW m0 m' a := by
+theorem pres_setAdd {W : Addr → Prop} {m0 m m' : Mem} (h : Ext W m0 m) {eq : Equiv} {a : Addr} {x : Word} {hh : Int}
+    (hw : SetW W m0 m a) (he : setAdd eq m a x hh = some m') :
+    Ext W m0 m' ∧ SetW W m0 m' a := by
   unfold setAdd at he
   cases hk : kvsOf m a with
   | none => simp [hk] at he
@@ -250,8 +276,8 @@ theorem pres_setAdd {m0 m m' : Mem} (h : Preserves m0 m) {eq : Equiv} {a : Addr}
     simp only [hk] at he
     have halt := kvsOf_lt hk
     -- the (possibly just created) bucket
-    have key : ∀ (m1 : Mem) (b : Word) (kvs1 : List (Key × Word)), Preserves m0 m1 → kvsOf m1 a = some kvs1 →
-        (∀ kv ∈ kvs1, SliceW m0 kv.2) → SliceW m0 b →
+    have key : ∀ (m1 : Mem) (b : Word) (kvs1 : List (Key × Word)), Ext W m0 m1 → kvsOf m1 a = some kvs1 →
+        (∀ kv ∈ kvs1, SliceW W m0 kv.2) → SliceW W m0 b →
         (match sliceElems m1 b with
           | none => none
           | some elems =>
@@ -261,7 +287,7 @@ theorem pres_setAdd {m0 m m' : Mem} (h : Preserves m0 m) {eq : Equiv} {a : Addr}
               | some (m2, b') => match kvsOf m2 a with
                 | none => none
                 | some kvs2 => some (setBody m2 a (.gomap (kvInsert (.i hh) b' kvs2)))) = some m' →
-        Preserves m0 m' ∧ SetW m0 m' a := by
+        Ext W m0 m' ∧ SetW W m0 m' a := by
       intro m1 b kvs1 h1 hk1 hall hb he
       cases hse : sliceElems m1 b with
       | none => simp [hse] at he
@@ -292,8 +318,8 @@ theorem pres_setAdd {m0 m m' : Mem} (h : Preserves m0 m) {eq : Equiv} {a : Addr}
       exact key m b kvs h hk (hw.2 kvs hk) (hw.2 kvs hk _ (mem_of_kvLookup hl)) he
     | none =>
       simp only [hl] at he
-      have hnew : SliceW m0 (.slice m.length 0 0 1) := by
-        intro arr off len cap e; cases e; exact frozenObj_ge h.1
+      have hnew : SliceW W m0 (.slice m.length 0 0 1) := by
+        intro arr off len cap e; cases e; exact .inr h.1
       refine key _ _ (kvInsert (.i hh) (.slice m.length 0 0 1) kvs)
         (pres_setBody (pres_alloc h _ _) _ hw.1) ?_ ?_ hnew he
       · exact kvsOf_setBody_self (kvs := kvs) (by rw [kvsOf_alloc _ _ halt, hk])
@@ -302,9 +328,9 @@ theorem pres_setAdd {m0 m m' : Mem} (h : Preserves m0 m) {eq : Equiv} {a : Addr}
         · subst e; exact hnew
         · exact hw.2 kvs hk kv e
 
-theorem pres_setAddAll {m0 : Mem} {eq : Equiv} {a : Addr} :
-    ∀ (xs : List Word) (hs : List Int) (m m' : Mem), Preserves m0 m → SetW m0 m a →
-      setAddAll eq m a xs hs = some m' → Preserves m0 m' ∧ SetW m0 m' a := by
+theorem pres_setAddAll {W : Addr → Prop} {m0 : Mem} {eq : Equiv} {a : Addr} :
+    ∀ (xs : List Word) (hs : List Int) (m m' : Mem), Ext W m0 m → SetW W m0 m a →
+      setAddAll eq m a xs hs = some m' → Ext W m0 m' ∧ SetW W m0 m' a := by
   intro xs
   induction xs with
   | nil =>
@@ -326,8 +352,8 @@ theorem pres_setAddAll {m0 : Mem} {eq : Equiv} {a : Addr} :
         exact ih hs m1 m' h1 hw1 he
 
 /-- `Set.Remove` -/
-theorem pres_setRemove {m0 m m' : Mem} (h : Preserves m0 m) {eq : Equiv} {a : Addr} {x : Word} {hh : Int}
-    (hw : frozenObj m0 a = false) (he : setRemove eq m a x hh = some m') : Preserves m0 m' := by
+theorem pres_setRemove {W : Addr → Prop} {m0 m m' : Mem} (h : Ext W m0 m) {eq : Equiv} {a : Addr} {x : Word} {hh : Int}
+    (hw : Wr W m0 a) (he : setRemove eq m a x hh = some m') : Ext W m0 m' := by
   unfold setRemove at he
   cases hk : kvsOf m a with
   | none => simp [hk] at he
@@ -344,16 +370,16 @@ theorem pres_setRemove {m0 m m' : Mem} (h : Preserves m0 m) {eq : Equiv} {a : Ad
           · cases he; exact pres_setBody (pres_alloc h _ _) _ hw
 
 /-- the fresh set of a constructor / copy -/
-theorem setW_new {m0 m : Mem} (h : Preserves m0 m) (own : Owner) :
-    SetW m0 (setNew m own).1 (setNew m own).2 := by
-  refine ⟨frozenObj_ge h.1, fun kvs hk kv hkv => ?_⟩
+theorem setW_new {W : Addr → Prop} {m0 m : Mem} (h : Ext W m0 m) (own : Owner) :
+    SetW W m0 (setNew m own).1 (setNew m own).2 := by
+  refine ⟨.inr h.1, fun kvs hk kv hkv => ?_⟩
   simp [setNew, alloc, kvsOf] at hk
   subst hk
   cases hkv
 
-theorem pres_copyBuckets {m0 : Mem} {a' : Addr} (ha' : frozenObj m0 a' = false) :
-    ∀ (l : List (Key × Word)) (m m' : Mem), Preserves m0 m → copyBuckets m a' l = some m' →
-      Preserves m0 m' := by
+theorem pres_copyBuckets {W : Addr → Prop} {m0 : Mem} {a' : Addr} (ha' : Wr W m0 a') :
+    ∀ (l : List (Key × Word)) (m m' : Mem), Ext W m0 m → copyBuckets m a' l = some m' →
+      Ext W m0 m' := by
   intro l
   induction l with
   | nil => intro m m' h he; simp [copyBuckets] at he; subst he; exact h
@@ -365,8 +391,8 @@ theorem pres_copyBuckets {m0 : Mem} {a' : Addr} (ha' : frozenObj m0 a' = false) 
     · exact ih _ _ (pres_setBody (pres_alloc h _ _) _ ha') he
     · simp at he
 
-theorem pres_setCopy {m0 m m' : Mem} (h : Preserves m0 m) {own : Owner} {a a' : Addr}
-    (he : setCopy m own a = some (m', a')) : Preserves m0 m' := by
+theorem pres_setCopy {W : Addr → Prop} {m0 m m' : Mem} (h : Ext W m0 m) {own : Owner} {a a' : Addr}
+    (he : setCopy m own a = some (m', a')) : Ext W m0 m' := by
   unfold setCopy at he
   cases hk : kvsOf m a with
   | none => simp [hk] at he
@@ -374,10 +400,10 @@ theorem pres_setCopy {m0 m m' : Mem} (h : Preserves m0 m) {own : Owner} {a a' : 
     simp only [hk, setNew, Option.map_eq_some_iff] at he
     obtain ⟨m2, hc, e⟩ := he
     cases e
-    exact pres_copyBuckets (frozenObj_ge h.1) kvs _ _ (pres_alloc h _ _) hc
+    exact pres_copyBuckets (.inr h.1) kvs _ _ (pres_alloc h _ _) hc
 
-theorem pres_allocIdxKeys {m0 : Mem} : ∀ (n i : Nat) (m : Mem), Preserves m0 m →
-    Preserves m0 (allocIdxKeys m i n).1 := by
+theorem pres_allocIdxKeys {W : Addr → Prop} {m0 : Mem} : ∀ (n i : Nat) (m : Mem), Ext W m0 m →
+    Ext W m0 (allocIdxKeys m i n).1 := by
   intro n
   induction n with
   | zero => intro i m h; exact h
@@ -395,14 +421,14 @@ macro_rules
       | (split at $h:ident)
       | (cases $h:ident)))
 
-theorem pres_iterElems {m0 m m' : Mem} (h : Preserves m0 m) {t v : Word} {perm : List Nat}
-    {kes : List (Word × Word)} (he : iterElems m t v perm = some (m', kes)) : Preserves m0 m' := by
+theorem pres_iterElems {W : Addr → Prop} {m0 m m' : Mem} (h : Ext W m0 m) {t v : Word} {perm : List Nat}
+    {kes : List (Word × Word)} (he : iterElems m t v perm = some (m', kes)) : Ext W m0 m' := by
   unfold iterElems at he
   opt_cases he
   all_goals (first | exact h | exact pres_allocIdxKeys _ _ _ h)
 
-theorem pres_walkChildren {m0 m : Mem} (h : Preserves m0 m) (t v : Word) :
-    Preserves m0 (walkChildren m t v).1 := by
+theorem pres_walkChildren {W : Addr → Prop} {m0 m : Mem} (h : Ext W m0 m) (t v : Word) :
+    Ext W m0 (walkChildren m t v).1 := by
   generalize he : walkChildren m t v = r
   unfold walkChildren at he
   simp only [] at he
